@@ -442,6 +442,7 @@ var vClasses = []struct{ sub, class string }{
 	{"TrafficRoutings' field is immutable", "immutTR"},
 	{"Rollout style and enableExtraWorkloadForCanary are immutable", "immutStyle"},
 	{"'Rolling-Style' annotation is immutable", "immutStyle"},
+	{"Rollout strategy type (Canary|BlueGreen) is immutable", "immutStyle"},
 	{"Amount of Rollout steps are immutable", "immutSteps"},
 }
 
